@@ -67,6 +67,7 @@ pub struct Delivered {
 #[derive(Clone, Debug)]
 pub struct GenCfg {
     pub max_groups: usize,
+    pub min_groups: usize,
     pub max_clients_total: usize,
     pub thresholds: Vec<u32>,
     pub min_threshold: u32,
@@ -90,6 +91,7 @@ impl GenCfg {
         }
         GenCfg {
             max_groups: if thorough { 8 } else { 5 },
+            min_groups: 1,
             max_clients_total: if thorough { 220 } else { 120 },
             thresholds,
             min_threshold: 1,
@@ -194,7 +196,7 @@ impl WorldA {
 
     fn gen_groups(&mut self, ctx: &mut Ctx) {
         let gen = self.gen.clone();
-        let ngroups = 1 + ctx.ch.index(gen.max_groups);
+        let ngroups = gen.min_groups.max(1) + ctx.ch.index(gen.max_groups + 1 - gen.min_groups.max(1).min(gen.max_groups));
         let mut triples: Vec<(Vec<u8>, Vec<u8>, u32)> = Vec::new();
         let shared_epoch = epoch_bytes(ctx, gen.utf8_epochs);
         let shared_t = (*ctx.ch.pick(&gen.thresholds)).max(gen.min_threshold);
